@@ -133,7 +133,7 @@ func (x *Exec) emit(st *State, kind, detail, clause string, props []string, goal
 	}
 	name := fmt.Sprintf("%s/%s", x.fnName(), kind)
 	switch kind {
-	case "bounds", "div-by-zero", "nil-map-write", "typeassert", "unreachable-panic", "frame", "lockset", "lock-released":
+	case "bounds", "div-by-zero", "nil-map-write", "nil-deref", "typeassert", "unreachable-panic", "frame", "lockset", "lock-released":
 		// positional details (block numbers, heap families) are not part of the obligation name:
 		// names must survive harmless edits. The detail stays in the clause text.
 		if detail != "" {
